@@ -25,9 +25,12 @@ export function* generate({ tier, seed }) {
     const expr = encodeMap(rng, M, rng.int(4), out);
     const order = rng.pick(['before', 'before', 'after', 'mixed']);
     const local = rng.bool(0.3) ? rng.pick(['fnDecl', 'arrow', 'fnExpr', 'iife', 'objMethod', 'classMethod', 'afterReturnless']) : false;
-    const fnForm = rng.pick(['arrow', 'arrow', 'function', 'arrowDestructure', 'arrowDestructureDefault', 'functionDestructureDefault']);
-    const setup = fnForm === 'arrowDestructureDefault' ? `({ ...rest }: ${expr} = {} as any) => () => null` : fnForm === 'functionDestructureDefault' ? `function ({ ...rest }: ${expr} = {} as any) { return () => null; }` : fnForm === 'arrow' ? `(props: ${expr}) => () => null` : fnForm === 'function' ? `function (props: ${expr}) { return () => null; }` : `({ ...rest }: ${expr}) => () => null`;
-    const src = assembleModule(rng, { decls: out.decls, call: `defineComponent(${setup})`, order, local });
+    const fnForm = rng.pick(['arrow', 'arrow', 'function', 'arrowDestructure', 'arrowDestructureDefault', 'functionDestructureDefault', 'arrowStaticDefault']);
+    // a default for a prop does not change whether it is required
+    const setup = fnForm === 'arrowStaticDefault' ? `(props: ${expr} = { ${JSON.stringify(M[0].key)}: null } as any) => () => null`.replace(' as any)', ')') : fnForm === 'arrowDestructureDefault' ? `({ ...rest }: ${expr} = {} as any) => () => null` : fnForm === 'functionDestructureDefault' ? `function ({ ...rest }: ${expr} = {} as any) { return () => null; }` : fnForm === 'arrow' ? `(props: ${expr}) => () => null` : fnForm === 'function' ? `function (props: ${expr}) { return () => null; }` : `({ ...rest }: ${expr}) => () => null`;
+    // hand-written options other than props never stand in the way of deriving props
+    const userOpts = rng.bool(0.25) ? rng.pick(['{ emits: ["change"] }', '{ inheritAttrs: false, emits: { change: null } }', '{ name: "N" }', '{ inheritAttrs: false }']) : null;
+    const src = assembleModule(rng, { decls: out.decls, call: `defineComponent(${setup}${userOpts ? ', ' + userOpts : ''})`, order, local });
     yield {
       gid: `C16-${i}`, src, syntax: 'tsx', spec: { expected: M.map((m) => ({ key: m.key, required: !m.optional, member: m.member })) },
       feature: `${[...new Set(out.ops)].sort().join('+')}|n=${M.length}|${order}|${local || 'module'}|${fnForm}|${[...new Set(M.map((m) => m.member + (m.optional ? '?' : '')))].sort().join(',')}`,
